@@ -89,3 +89,55 @@ func FlateCanary() (err error) {
 	}
 	return nil
 }
+
+// FlateEncodeCanary is the write-side counterpart of FlateCanary: four Flate
+// encoders are alive at the same time and are written to alternately; each
+// output must inflate (with the standard library) to the data of its own
+// encoder.  It detects a compressor that the library's pool handed out twice.
+func FlateEncodeCanary() (err error) {
+	defer func() {
+		if r := recover(); r != nil {
+			err = fmt.Errorf("panic while several Flate encoders were open: %v", r)
+		}
+	}()
+	want := [][]byte{canaryA, canaryB, canaryB, canaryA}
+	bufs := make([]*nopCloseBuffer, len(want))
+	encs := make([]io.WriteCloser, len(want))
+	for i := range want {
+		bufs[i] = &nopCloseBuffer{}
+		enc, err := pdf.FilterFlate{}.Encode(pdf.V1_7, bufs[i])
+		if err != nil {
+			return err
+		}
+		encs[i] = enc
+	}
+	for off := 0; off < 5000; off += 700 {
+		for i, enc := range encs {
+			if off < len(want[i]) {
+				if _, err := enc.Write(want[i][off:min(off+700, len(want[i]))]); err != nil {
+					return fmt.Errorf("encoder %d: %v", i, err)
+				}
+			}
+		}
+	}
+	for i, enc := range encs {
+		if err := enc.Close(); err != nil {
+			return fmt.Errorf("encoder %d: Close: %v", i, err)
+		}
+	}
+	for i := range want {
+		zr, err := zlib.NewReader(bytes.NewReader(bufs[i].Bytes()))
+		if err != nil {
+			return fmt.Errorf("output of encoder %d is not a zlib stream: %v", i, err)
+		}
+		got, err := io.ReadAll(zr)
+		if err != nil || !bytes.Equal(got, want[i]) {
+			return fmt.Errorf("output of encoder %d inflates to %d bytes that are not its own data (%d expected, err %v)", i, len(got), len(want[i]), err)
+		}
+	}
+	return nil
+}
+
+type nopCloseBuffer struct{ bytes.Buffer }
+
+func (*nopCloseBuffer) Close() error { return nil }
